@@ -282,6 +282,7 @@ func pipeTrace(args []string) int {
 			feats = []featSpec{}
 		}
 		out.put(map[string]any{"e": "Reset", "n": r.n, "targets": r.targets, "feat": feats, "delay": r.delay, "procs": procs, "run": ri})
+		out.flush() // a panic in one of the pipeline's own goroutines kills this process: the run that did it must be identifiable
 		targets := map[tms20.TMID]processing.Target{}
 		var held *fakeTarget
 		for _, t := range r.targets {
